@@ -185,10 +185,16 @@ type c16Data struct {
 //go:norace
 func (d *c16Data) addRec(r *c16Rec) { d.Recs = append(d.Recs, r); d.byID[r.ID] = r }
 
+func c16Kind(id int) (okind, onode int32) {
+	return []int32{0, 5, -7, 0, 2041}[id%5], []int32{0, 0, 3, -9, -739397152}[id%5]
+}
+
 func c16Record(id, size int, timeMs int64) *pack.LogSinkPack {
 	p := pack.NewLogSinkPack()
 	p.Pcode = 77
 	p.Oid = int32(id)
+	// object kind / node ids are name hashes: any int32, zero included, in any combination
+	p.Okind, p.Onode = c16Kind(id)
 	p.Time = timeMs
 	p.Category = "c16"
 	p.Line = int64(id)
@@ -497,6 +503,9 @@ func c16Decode(raw []byte) (ids []int, times []int64, encs []int, payload int, z
 		}
 		if !strings.HasPrefix(ls.Content, "rec-"+strconv.FormatInt(ls.Line, 10)+"-") {
 			return ids, times, encs, payload, zipped, count, fmt.Errorf("inner record %d has foreign content %.40q", ls.Line, ls.Content)
+		}
+		if ok, on := c16Kind(int(ls.Line)); ls.Pcode != 77 || ls.Oid != int32(ls.Line) || ls.Okind != ok || ls.Onode != on || ls.Category != "c16" {
+			return ids, times, encs, payload, zipped, count, fmt.Errorf("inner record %d does not decode back to what was handed in: pcode=%d oid=%d okind=%d onode=%d category=%q, expected pcode=77 oid=%d okind=%d onode=%d category=\"c16\"", ls.Line, ls.Pcode, ls.Oid, ls.Okind, ls.Onode, ls.Category, ls.Line, ok, on)
 		}
 		ids = append(ids, int(ls.Line))
 		times = append(times, ls.Time)
